@@ -2,7 +2,10 @@
 Theorems: coq/Props/Properties_C13.v over coq/Leaf/NativeWide.v (the native `long`
 and the wide INTEGER_t representation of one abstract integer reach the same byte
 producers; where they part — unsigned fields at and above 2^63, values a long
-cannot hold — is refuted with witnesses).
+cannot hold — is refuted with witnesses), coq/Rt/Layout.v (pointer vs inline member
+representation: for every layout the OER/DER walk of the structure gives the bytes of
+the representation-free codec model) and coq/Rt/Options.v (erasure of the descriptor
+tables, its comparison, the emitter's OER/PER slot decision).
 Tie: the SAME generated module is compiled by the asn1c built from /repo under
 several subsets of the representation options; every build encodes the same
 values in DER, UPER, OER, BASIC-XER and CANONICAL-XER: the bytes must be equal
@@ -11,7 +14,13 @@ algebra), and every build must decode every distinct output back to the value.
  (model layer) lib/modgen.Gen modules, corpus values as model DER;
  (wide layer)  lib/widegen.WGen modules, values from the baseline build's
                asn_random_fill transported as DER;
- (witness layer) the refuted theorems' witnesses replayed on the real code."""
+ (witness layer) the refuted theorems' witnesses replayed on the real code;
+ (family layer) lib/c13_families.py: one directed module family per representation
+               option, directed values, every build vs the others and vs the codec model;
+ (descriptor tie) harness/dumpdescr.c dumps the type descriptor tables of every build of
+               every module; the option-invariant part (lib/c13_descr.py = extracted
+               Rt/Options.v table_sim) must equal the baseline's; the dumped OER/PER slots
+               must be what the emitter model (type_slots / member_slots) says."""
 import sys, os, re, time
 sys.path.insert(0, os.path.join(os.path.dirname(os.path.abspath(__file__)), "..", "lib"))
 from vlib import *
@@ -795,7 +804,7 @@ def main(tier):
         leaf_tie(run, rng, tier, wvariants, model)
     _t("witness done")
     tb = ["Coq 8.16.1 kernel; vm_compute for refuted witnesses and Examples", "axioms under Print Assumptions: " + (", ".join(sorted(axioms)) or "none (Closed under the global context)"),
-          "extraction: ExtrOcamlBasic only; OCaml 4.13.1", "lib/modgen.py (generator, independent X.680 tagging), lib/widegen.py, lib/modbuild.py, lib/c13_util.py, harness/moddrv.c; gcc + ASan/UBSan",
+          "extraction: ExtrOcamlBasic only; OCaml 4.13.1", "lib/modgen.py (generator, independent X.680 tagging), lib/widegen.py, lib/modbuild.py, lib/c13_util.py, lib/c13_families.py (directed families, hand-made DER), lib/c13_descr.py (parser of the dumped tables, Python erasure), harness/moddrv.c, harness/dumpdescr.c (translator, reads the public asn_TYPE_descriptor_t layout), ocaml/drv_c13.ml (integer-tree parser); gcc + ASan/UBSan",
           "values reach every build as DER through ber_decode; wide-layer values are those the baseline build's asn_random_fill produces",
           "builds made with -no-gen-OER / -no-gen-PER are linked with the full skeleton archive and are not asked for the disabled syntax"]
     return run.finish("proof", (nthm, ndis), trusted_base=tb,
@@ -803,7 +812,8 @@ def main(tier):
                       extra_cov={"family_values_not_encodable_anywhere": FAMILY_NOTES, "theorems": names, "coqchk": coqchk, "driver_notes": run.notes[:12], "modules": len(mods), "wide_modules": len(wmods), "option_sets": [" ".join(v.opts) for v in variants],
                                  "rule": "one case = one driver command line (value x syntax encoded by every build, or one distinct output decoded by every build); distinct command lines",
                                  "traces_validated_against_impl": run.cov["evaluations"]},
-                      assumptions=["theorems cover the INTEGER/ENUMERATED native-vs-wide leaf (DER, BER decode, the conversions used by PER/OER); every other effect of the options is covered by the tie only",
+                      assumptions=["theorems cover the INTEGER/ENUMERATED native-vs-wide leaf (DER, BER decode, the conversions used by PER/OER), pointer vs inline member access for OER and DER over the first-milestone algebra (Rt/Layout.v), the descriptor erasure with its comparison and the emitter's slot decision (Rt/Options.v); REAL native/wide, UPER/XER on the structure, the wide algebra and the naming/include options are covered by the tie only",
+                                   "family modules (quick tier) are built under the option sets that contain an option the family is about, plus -findirect-choice alone and all structure-changing options together",
                                    "quick tier: baseline + 5 option subsets; thorough: all subsets of the 7 options",
                                    "modules that do not compile without -fcompound-names are skipped (C10)"])
 
